@@ -55,6 +55,8 @@ pub struct Profile {
     pub prio_knobs: bool,
     /// batch_append on every node
     pub batch_append: bool,
+    /// max_committed_size_per_ready of every node (None = default / random)
+    pub mcspr: Option<i64>,
     /// ReadOnlyOption::LeaseBased on every node
     pub lease_read: bool,
     /// fixed values for (max_size_per_msg, max_uncommitted_size) of every node; None = defaults / random
@@ -102,6 +104,7 @@ impl Profile {
             group_commit: false,
             prio_knobs: false,
             batch_append: false,
+            mcspr: None,
             lease_read: false,
             size_knobs: None,
             script: String::new(),
@@ -518,6 +521,40 @@ impl Profile {
                 p.proposals = 20;
                 p.max_log = 40;
             }
+            "s_snaplazy" => {
+                p.ids = vec![1, 2, 3];
+                p.voters = vec![1, 2, 3];
+                p.script = "snap_lazy_apply".into();
+                p.w_crash = 0;
+                p.w_partition = 0;
+                p.w_drop = 1;
+                p.proposals = 30;
+                p.max_log = 50;
+            }
+            "s_staleprobe" => {
+                p.ids = vec![1, 2, 3];
+                p.voters = vec![1, 2, 3];
+                p.script = "stale_ack_probe".into();
+                p.w_crash = 0;
+                p.w_partition = 0;
+                p.w_drop = 0;
+                p.w_dup = 0;
+                p.proposals = 30;
+                p.max_log = 60;
+            }
+            "s_lazycamp" => {
+                p.ids = vec![1, 2, 3, 4];
+                p.voters = vec![1, 2, 3];
+                p.learners = vec![4];
+                p.script = "lazy_campaign".into();
+                p.mcspr = Some(8);
+                p.conf_changes = 4;
+                p.w_crash = 0;
+                p.w_partition = 0;
+                p.w_drop = 1;
+                p.proposals = 20;
+                p.max_log = 60;
+            }
             "leaseread" => {
                 p.check_quorum = true;
                 p.lease_read = true;
@@ -675,6 +712,9 @@ pub fn cluster_cfg(prof: &Profile, rng: &mut StdRng) -> ClusterCfg {
         if prof.batch_append {
             k.batch_append = true;
         }
+        if let Some(v) = prof.mcspr {
+            k.max_committed_size_per_ready = v;
+        }
         if let Some((ms, mu)) = prof.size_knobs {
             k.max_size_per_msg = ms;
             k.max_uncommitted_size = mu;
@@ -831,6 +871,8 @@ impl Sched {
             let raw = match &slot.raw {
                 None => {
                     cands.push((6, Choice::Restart { n, applied: -1 }));
+                    // the application restarts from exactly what it had applied (possibly beyond the stored commit index)
+                    cands.push((3, Choice::Restart { n, applied: slot.app.applied as i64 }));
                     if self.rng.gen_bool(0.2) {
                         let a = self.rng.gen_range(0..=slot.app.applied) as i64;
                         cands.push((2, Choice::Restart { n, applied: a }));
@@ -1739,6 +1781,14 @@ impl Sched {
                     }
                     self.prof.w_reqsnap = 3;
                     self.reads_left = 2;
+                    if !bounce && self.rng.gen_bool(0.6) {
+                        // the first snapshot for the lagging follower is lost in transit and reported as failed
+                        self.hold_from = vec![(l, f, "Snap".into())];
+                        if self.run_until(cl, out, 400, |cl| cl.find_match(l, f, "Snap", -1).is_some()) {
+                            self.do_choice(cl, out, Choice::DropMatch { from: l, to: f, ty: "Snap".into(), idx: -1 });
+                        }
+                        self.hold_from.clear();
+                    }
                     self.run_steps(cl, out, 60);
                     let in_snapshot = |cl: &Cluster, l: u64, f: u64| {
                         cl.nodes[cl.slot(l)].raw.as_ref().map_or(false, |r| {
@@ -2429,6 +2479,20 @@ impl Sched {
                         }
                         self.blocked.clear();
                         self.run_steps(cl, out, 120);
+                        // two voters of the incoming set (a majority of it, not of the outgoing set) are cut off
+                        // together and one of them stands for election
+                        let inc: Vec<u64> = cand.iter().copied().filter(|x| *x != t).chain(std::iter::once(l)).collect();
+                        if inc.len() >= 2 && Self::leader_of(cl).is_some() {
+                            let lead = Self::leader_of(cl).unwrap();
+                            let pair: Vec<u64> = inc.iter().copied().filter(|x| *x != lead && cl.is_up(*x)).take(2).collect();
+                            if pair.len() == 2 {
+                                self.isolate(&pair, &ids);
+                                self.idle_then(cl, out, pair[0], Choice::Campaign { n: pair[0] });
+                                self.run_steps(cl, out, 70);
+                                self.blocked.clear();
+                                self.run_steps(cl, out, 60);
+                            }
+                        }
                     }
                     self.blocked.clear();
                     if let Some(l2) = Self::leader_of(cl) {
@@ -2643,6 +2707,142 @@ impl Sched {
                     self.clear_script_controls();
                     self.proposals_left = keep;
                     self.run_steps(cl, out, 60);
+                }
+            }
+            "snap_lazy_apply" => {
+                // a follower persists a snapshot, its application reports it applied only much later; meanwhile the
+                // follower is cut off and its election timeout fires (repeatedly)
+                let _ = self.until_leader(cl, out, 400);
+                self.prof.w_compact = 0;
+                for _ in 0..3 {
+                    let l = match Self::leader_of(cl) {
+                        Some(l) => l,
+                        None => {
+                            self.run_steps(cl, out, 80);
+                            continue;
+                        }
+                    };
+                    let f = self.others(&ids, l)[0];
+                    self.isolate(&[f], &ids);
+                    self.proposals_left = self.proposals_left.max(4);
+                    self.run_steps(cl, out, 110);
+                    self.run_until(cl, out, 120, |cl| {
+                        let a = &cl.nodes[cl.slot(l)];
+                        a.app.applied == Self::committed_of(cl, l) && a.dur.hs.commit >= a.app.applied && a.app.outstanding.is_none()
+                    });
+                    self.do_choice(cl, out, Choice::MakeSnap { n: l });
+                    let k = cl.nodes[cl.slot(l)].app.applied.min(cl.nodes[cl.slot(l)].dur.hs.commit);
+                    self.do_choice(cl, out, Choice::Compact { n: l, k });
+                    self.run_steps(cl, out, 10);
+                    self.blocked.clear();
+                    self.frozen = vec![(f, "Apply")];
+                    let before = cl.nodes[cl.slot(f)].dur.trunc_index;
+                    let installed = self.run_until(cl, out, 700, |cl| {
+                        cl.is_up(f) && cl.nodes[cl.slot(f)].dur.trunc_index > before && cl.nodes[cl.slot(f)].app.outstanding.is_none()
+                    });
+                    if installed {
+                        self.isolate(&[f], &ids);
+                        self.run_steps(cl, out, 160);
+                        if self.rng.gen_bool(0.5) {
+                            self.idle_then(cl, out, f, Choice::Campaign { n: f });
+                        }
+                        self.run_steps(cl, out, 30);
+                    }
+                    self.clear_script_controls();
+                    self.run_steps(cl, out, 120);
+                }
+            }
+            "stale_ack_probe" => {
+                // a duplicate of an old acknowledgement arrives while the leader waits for the answer to a probe
+                let _ = self.until_leader(cl, out, 400);
+                for _ in 0..5 {
+                    let l = match Self::leader_of(cl) {
+                        Some(l) => l,
+                        None => {
+                            self.run_steps(cl, out, 80);
+                            continue;
+                        }
+                    };
+                    let keep = std::mem::replace(&mut self.proposals_left, 0);
+                    self.run_steps(cl, out, 40);
+                    let f = self.others(&ids, l)[0];
+                    let p = self.payload();
+                    self.idle_then(cl, out, l, Choice::Propose { n: l, p });
+                    let seen = self.run_until(cl, out, 80, |cl| {
+                        cl.find_match(f, l, "AppResp", -1).is_some() && cl.nodes[cl.slot(l)].app.outstanding.is_none()
+                    });
+                    if seen {
+                        self.do_choice(cl, out, Choice::DeliverMatch { from: f, to: l, ty: "AppResp".into(), idx: -1, keep: true });
+                        self.hold_from = vec![(f, l, "AppResp".into()), (f, l, "HBResp".into())];
+                        self.run_steps(cl, out, 10);
+                        self.idle_then(cl, out, l, Choice::Unreachable { n: l, j: f });
+                        self.blocked = vec![(l, f)];
+                        let p = self.payload();
+                        self.idle_then(cl, out, l, Choice::Propose { n: l, p });
+                        self.run_steps(cl, out, 15);
+                        // the old copies arrive now
+                        self.hold_from = vec![(f, l, "HBResp".into())];
+                        self.run_steps(cl, out, 25);
+                        let p = self.payload();
+                        self.idle_then(cl, out, l, Choice::Propose { n: l, p });
+                        self.run_steps(cl, out, 20);
+                    }
+                    self.clear_script_controls();
+                    self.proposals_left = keep;
+                    self.run_steps(cl, out, 100);
+                }
+            }
+            "lazy_campaign" => {
+                // a follower whose application lags holds a committed backlog "normal entry, membership change";
+                // it is asked to campaign (and its election timeout fires) before it has applied the change
+                let _ = self.until_leader(cl, out, 400);
+                for _ in 0..5 {
+                    let l = match Self::leader_of(cl) {
+                        Some(l) => l,
+                        None => {
+                            self.run_steps(cl, out, 80);
+                            continue;
+                        }
+                    };
+                    let keepc = std::mem::replace(&mut self.conf_left, 0);
+                    let keep = std::mem::replace(&mut self.proposals_left, 0);
+                    let ids2 = ids.clone();
+                    self.run_until(cl, out, 200, |cl| {
+                        ids2.iter().all(|n| !cl.is_up(*n) || {
+                            let a = &cl.nodes[cl.slot(*n)];
+                            a.raw.as_ref().unwrap().raft.raft_log.applied == Self::last_of(cl, l) && a.app.outstanding.is_none()
+                        })
+                    });
+                    let voters: Vec<u64> = cl.nodes[cl.slot(l)].raw.as_ref().unwrap().raft.prs().conf().voters().ids().iter().collect();
+                    let fs: Vec<u64> = voters.iter().copied().filter(|x| *x != l).collect();
+                    if fs.is_empty() {
+                        self.conf_left = keepc;
+                        self.proposals_left = keep;
+                        continue;
+                    }
+                    let f = *fs.choose(&mut self.rng).unwrap();
+                    self.frozen = vec![(f, "Apply")];
+                    let before = Self::last_of(cl, l);
+                    let (_, tr, ch) = self.random_cc(cl);
+                    let mut e1 = crate::view::EntryV { ty: "N".into(), ..Default::default() };
+                    e1.p = self.payload();
+                    let e2 = crate::view::EntryV { ty: "C2".into(), tr, ch, sz: 1, ..Default::default() };
+                    self.idle_then(cl, out, l, Choice::ProposeBatch { n: l, ents: vec![e1, e2] });
+                    let ready = self.run_until(cl, out, 200, |cl| Self::committed_of(cl, f) >= before + 2 && cl.nodes[cl.slot(f)].app.outstanding.is_none());
+                    if ready {
+                        if self.rng.gen_bool(0.5) {
+                            self.idle_then(cl, out, f, Choice::Campaign { n: f });
+                        } else {
+                            self.isolate(&[f], &ids);
+                            self.run_steps(cl, out, 120);
+                            self.blocked.clear();
+                        }
+                        self.run_steps(cl, out, 30);
+                    }
+                    self.frozen.clear();
+                    self.conf_left = keepc;
+                    self.proposals_left = keep;
+                    self.run_steps(cl, out, 120);
                 }
             }
             "conf_mix" => {
